@@ -44,8 +44,12 @@ def gen_case(rng):
     for i in range(rng.randint(1, 3)):
         re = [(rng.choice(species), rng.randint(1, 3)) for _ in range(rng.randint(0, 2))]
         pr = [(rng.choice(species), rng.randint(1, 3)) for _ in range(rng.randint(0, 2))]
-        # libsbml wants one reference per species and side
-        re = list({s: n for s, n in re}.items()); pr = list({s: n for s, n in pr}.items())
+        # mostly one reference per species and side; a quarter of the reactions may list a species in two references of one side
+        # (SBML Level 3 allows it: the effective stoichiometry is the sum) -- seeded change S6_C13: the last reference replaced the others
+        if rng.random() < 0.75: re = list({s: n for s, n in re}.items()); pr = list({s: n for s, n in pr}.items())
+        else:
+            if re and rng.random() < 0.7: re.append((re[0][0], rng.randint(1, 2)))
+            if pr and rng.random() < 0.7: pr.append((pr[0][0], rng.randint(1, 2)))
         locs = {}
         if rng.random() < 0.6: locs["k"] = round(rng.uniform(0.2, 3), 3)        # collides with the global k
         if rng.random() < 0.4: locs["K"] = float(rng.randint(1, 6))
